@@ -2,7 +2,7 @@
 # verify_seed.sh <ID> <variant>: confirm a seeded change in a scratch worktree of /repo HEAD:
 # applies, builds, existing suite passes, demo fails with it and passes without it.
 id="$1"; v="$2"
-src=/tmp/seedout/$id/$v
+src=${SRCROOT:-/tmp/seedout}/$id/$v
 wt=/tmp/vs-$id$v
 export GOFLAGS=-mod=mod GOPROXY=off GOSUMDB=off GOTOOLCHAIN=local
 log=$src/verify.log
@@ -12,7 +12,7 @@ git -C /repo worktree add -q --detach $wt ${BASE:-HEAD} || exit 2
 cd $wt
 if ! git apply $src/patch.diff 2>/dev/null && ! git apply -3 $src/patch.diff 2>/dev/null && ! patch -p1 -s --no-backup-if-mismatch < $src/patch.diff; then echo "RESULT applies=no"; cd /; git -C /repo worktree remove --force $wt; exit 1; fi
 git reset -q
-git diff > /tmp/seedout/$id/$v/patch.rebased.diff
+git diff > $src/patch.rebased.diff
 if go build ./... && go build -tags verif ./... ; then b=yes; else b=no; fi
 go test -vet=off -count=1 -timeout 25m ./... > /tmp/vs-$id$v.test.log 2>&1
 fails=$(grep -E "^(--- FAIL|FAIL)" /tmp/vs-$id$v.test.log | grep -v "TestGenerateProtoFiles\|TestGorumsStability\|internal/testprotos\|^FAIL$" | tr '\n' ';')
